@@ -1,7 +1,7 @@
 (* Properties_C12.v -- a simulator run depends only on the binary, the input and the options.
    Model: SimModel.v (cpp_init = the constructor with memory{} and exitCode(0); run / run_traced; guard = the cycle limit). *)
 From Coq Require Import ZArith List Lia.
-From HexVerif Require Import WMap Isa SimModel SimProofs SimProofs12 Loader.
+From HexVerif Require Import WMap Isa SimModel SimProofs SimProofs12 AsmLayout Loader LoaderTrunc.
 Import ListNotations.
 Local Open Scope Z_scope.
 
@@ -79,3 +79,14 @@ Example C12_loader_examples :
   Loader.load_file [1;0;0;64; 1;2;3;4] = Some ([67305985], []) /\   (* 0x40000001 << 2 wraps to 4 bytes *)
   Loader.load_file (firstn 12 demo_file ++ [1;0;0;0; 109;0; 1;0;0;0; 5;0;0;0; 8;0;0;0]) = None.   (* string index 5 of 1 *)
 Proof. vm_compute. repeat split; reflexivity. Qed.
+
+(* a binary of the assembler model's format whose debug tables are cut ANYWHERE (a strict, non-empty prefix of them is
+   left) is rejected by the loader model: a damaged table is never used, whatever follows it on the stack or heap *)
+Theorem C12_loader_truncated_rejected : forall (img : list Z) (names : list (list Z)) (offs t y : list Z),
+  let n := Z.of_nat (List.length img) in
+  let k := Z.of_nat (List.length names) in
+  n mod 4 = 0 -> n <= 800000 -> List.length names = List.length offs -> k < W32 -> Forall no_nul names ->
+  le32 k ++ strings_bytes names ++ le32 k ++ entries offs 0 = t ++ y -> t <> [] -> y <> [] ->
+  Loader.load_file (le32 (n / 4) ++ img ++ t) = None.
+Proof. exact load_truncated_rejected. Qed.
+Print Assumptions C12_loader_truncated_rejected.
